@@ -145,6 +145,24 @@ example : parseInt 64 [] = .error .rejected := by rfl
 example : parseInt 64 [45] = .error .rejected := by rfl
 example : parseInt 64 [43, 48, 55] = .ok 7 := by rfl
 
+/-- Booleans: what the client writes is read back, and only the twelve spellings of `strconv.ParseBool` are accepted. -/
+theorem C06_boolean_roundtrip_and_accepted_set (b : Bool) (s : Str) :
+    parseBool (renderBool b) = some b ∧
+    (parseBool s = some true → s ∈ trueTexts) ∧ (parseBool s = some false → s ∈ falseTexts) := by
+  refine ⟨by cases b <;> decide, ?_, ?_⟩
+  · intro h
+    unfold parseBool at h
+    split at h
+    · rename_i hc; simpa using hc
+    · split at h <;> simp at h
+  · intro h
+    unfold parseBool at h
+    split at h
+    · simp at h
+    · split at h
+      · rename_i hc; simpa using hc
+      · simp at h
+
 /-! ### the typed layer of `format: date` (Model/DateParse.lean: `time.Parse("2006-01-02")` / `Format`) -/
 
 /-- A date that exists (year up to 9999, month 1–12, a day of that month, leap years counted) is written as ten
